@@ -148,6 +148,8 @@ CONSTANTS Ver,         \* protocol version of the subject clients: 4 or 5
           TopicSet,    \* {[n, lv]}: every topic name that can occur (requests, rewrites, wills)
           FilterSet,   \* {[n, lv]}: filters the subjects use
           ObsFilter,   \* [n, lv]: the filter of the independent observer "obs" (QoS 2, always online)
+          Obs2Filter,  \* [n, lv]: the narrow filter of a second observer "obs2" (QoS 2, always online): it makes the ROUTING
+                       \* of a message whose topic a hook rewrote observable (the wide observer sees every topic)
           Swap,        \* function on topic / filter names: the name a rewriting verdict moves to
           WillSet,     \* wills a CONNECT can carry (records [has, t, p, q]), incl. NoWill
           PubReqs,     \* messages [t, p, q, r] a subject publishes (p = "" clears)
@@ -174,7 +176,7 @@ NoResp == [t |-> "none"]
 Wire(code) == IF code = 256 THEN 128 ELSE code
 
 TopicLv(n)  == (CHOOSE x \in TopicSet : x.n = n).lv
-FilterLv(n) == (CHOOSE x \in FilterSet \cup {ObsFilter} : x.n = n).lv
+FilterLv(n) == (CHOOSE x \in FilterSet \cup {ObsFilter, Obs2Filter} : x.n = n).lv
 Matches(f, t) == Match(FilterLv(f), TopicLv(t))
 
 SubsOf(S, c) == {s \in S : s.c = c}
@@ -184,6 +186,7 @@ OnlineSet == {c \in Clients : sess[c] = "online"}
 \* (rt = the topic name the routing looks at; the demanded behaviour is rt = e.t)
 ForwardBy(rt, e, S, on) ==
     (IF Matches(ObsFilter.n, rt) THEN {[to |-> "obs", t |-> e.t, p |-> e.p, q |-> e.q]} ELSE {})
+    \cup (IF Matches(Obs2Filter.n, rt) THEN {[to |-> "obs2", t |-> e.t, p |-> e.p, q |-> e.q]} ELSE {})
     \cup {[to |-> s.c, t |-> e.t, p |-> e.p, q |-> Min(s.q, e.q)] : s \in {x \in S : x.c \in on /\ Matches(x.f, rt)}}
 Forward(e, S, on) == ForwardBy(e.t, e, S, on)
 
@@ -368,7 +371,8 @@ RewriteIsWhatIsSeen ==
           IN /\ \A d \in last'.dlv : d.t = m2.t /\ d.p = m2.p /\ d.q <= m2.q
              /\ Matches(ObsFilter.n, m2.t) => [to |-> "obs", t |-> m2.t, p |-> m2.p, q |-> m2.q] \in last'.dlv
              /\ \A s \in subs : (s.c \in OnlineSet /\ Matches(s.f, m2.t)) => \E d \in last'.dlv : d.to = s.c
-             /\ \A d \in last'.dlv : d.to # "obs" => \E s \in subs : s.c = d.to /\ Matches(s.f, m2.t)
+             /\ Matches(Obs2Filter.n, m2.t) <=> [to |-> "obs2", t |-> m2.t, p |-> m2.p, q |-> m2.q] \in last'.dlv
+             /\ \A d \in last'.dlv : d.to \notin {"obs", "obs2"} => \E s \in subs : s.c = d.to /\ Matches(s.f, m2.t)
              /\ (m2.r /\ m2.p # "") => [t |-> m2.t, p |-> m2.p, q |-> m2.q] \in ret'
              /\ (m2.r /\ m2.p = "") => ~\E x \in ret' : x.t = m2.t
              /\ ~m2.r => ret' = ret
@@ -403,6 +407,7 @@ WillVerdictEnforced ==
             [] last'.v.k = "keep" -> \A d \in last'.dlv : d.t = will[last'.c].t /\ d.p = will[last'.c].p
             [] last'.v.k = "edit" -> /\ \A d \in last'.dlv : d.t = last'.v.m.t /\ d.p = last'.v.m.p /\ d.q <= last'.v.m.q
                                      /\ Matches(ObsFilter.n, last'.v.m.t) => \E d \in last'.dlv : d.to = "obs"
+                                     /\ Matches(Obs2Filter.n, last'.v.m.t) <=> \E d \in last'.dlv : d.to = "obs2"
       ]_vars
 
 Proj(se, wi, su, re) == [sess |-> se, will |-> wi, subs |-> su, ret |-> re]
